@@ -989,5 +989,9 @@ def evidence_meta(prop):
             "line-level interleavings of two callbacks are explored by "
             "ThreadSim (L2); pre-emption inside one bytecode line is not "
             "simulated",
+            "every case runs in a freshly forked child of its worker (one "
+            "case = one process lifetime): state py-gql keeps on module-level "
+            "objects cannot leak from one case into the next, and a replay "
+            "in a fresh interpreter starts from the same state",
         ],
     }
